@@ -71,16 +71,22 @@ class State:
     def solver(self, timeout_ms=None):
         s = z3.Solver()
         s.set("timeout", timeout_ms or self.eng.timeout_ms)
+        ctx_ref, sol = s.ctx.ref(), s.solver
+        zassert = z3.Z3_solver_assert
         for c in self.pc:
-            s.add(c)
+            zassert(ctx_ref, sol, c.as_ast())
         for a in str_axioms():
-            s.add(a)
+            zassert(ctx_ref, sol, a.as_ast())
         for a in self.eng.global_axioms:
-            s.add(a)
+            zassert(ctx_ref, sol, a.as_ast())
         ist = self.eng.init_state
         if ist is not None and ist is not self:
-            for a in ist.pc:
-                s.add(a)
+            key = len(ist.pc)
+            cached = self.eng.init_conj
+            if cached is None or cached[0] != key:
+                conj = z3.And(*ist.pc) if ist.pc else z3.BoolVal(True)
+                self.eng.init_conj = cached = (key, conj)
+            zassert(ctx_ref, sol, cached[1].as_ast())
         return s
 
     def feasible(self, extra=None):
